@@ -1,14 +1,14 @@
 SPECIFICATION SSpec
 CONSTANTS
-  T = 200
-  InitCap = 32
+  T = 1000
+  InitCap = 48
   Realloc = FALSE
   MaxChunks = 1
-  Sizes = {0, 1, 7, 16, 20, 33, 34}
+  Sizes = {0, 7, 33, 234, 235, 900, 984, 985, 2000}
   KeysU = {1}
   TrackContent = FALSE
   MaxInserts = 0
   ExceededUsesCapacity = TRUE
-  GenLen = 0
-INVARIANTS Bookkeeping VolumeBound LiveBound2
+  GenLen = 60
+INVARIANTS Bookkeeping LiveBound2 EmitSizes
 CHECK_DEADLOCK FALSE
